@@ -8,8 +8,8 @@ impl<T, M> Iterator for Wrapped<T, M> { type Item = T; fn next(&mut self) -> Opt
 fn main() {
     let col: Vec<String> = vec![String::from("a"), String::from("b"), String::from("c")];
     let it = col.con_iter();
-    let s = it.into_seq_iter(); drop(s);
-    let it = col.con_iter();
-    let r = it.next();
-    if let Some(x) = r { let _y = x.clone(); }
+    let mut b = it.buffered_iter(2);
+    drop(col);
+    let k1 = b.next();
+    if let Some(x) = k1 { let _n = x.values.count(); }
 }
